@@ -103,7 +103,7 @@ def result_wf(H, v):
         for it in v.items:
             out += result_wf(H, it)
     if v.ty.k == 'opt':
-        out += [z3.Implies(z3.Not(v.none), f) for f in result_wf(H, sx.V(v.ty.a[0], v.t))]
+        out += [z3.Implies(z3.Not(v.none), f) for f in result_wf(H, sx.V(v.ty.a[0], v.t, items=v.items))]
     return out
 
 
